@@ -43,7 +43,16 @@ def chain(n):
     return inputs, L[0] + L[n], {L[i]: 2 + (i % 3 == 0) for i in range(n + 1)}
 
 
-POOL = [ring(4), chain(5), ring(6, ""), (("ab", "bc", "ca"), "", {"a": 2, "b": 2, "c": 3})]
+def chain_variant(n):
+    """the same contraction as chain(n) written with one operand transposed and the output permuted
+    (same default fingerprint, different inputs/output)"""
+    inputs, output, size = chain(n)
+    inputs = list(inputs)
+    inputs[1] = inputs[1][::-1]
+    return tuple(inputs), output[::-1], size
+
+
+POOL = [ring(4), chain(5), ring(6, ""), (("ab", "bc", "ca"), "", {"a": 2, "b": 2, "c": 3}), chain_variant(5)]
 BIG = [ring(13), chain(14)]
 
 
